@@ -1023,8 +1023,25 @@ def controls(chk, bench, tables, valid, faults, tier):
         f = evaluate_fault(bench, c, tables, "dict", unfaulted=True)
         fired += f is not None and f != "inexpressible" and f["got"] == "returned"
     chk.control("unapplied-fault-reported", tried > 0 and fired == tried, f"{fired}/{tried}")
-    # --- the minimiser names the planted feature, not a bystander
-    return a1
+    # --- the minimiser names the planted feature, not a bystander: a reader that chokes on ';' only
+    import types
+
+    def picky_read(file):
+        with open(file) as fh:
+            if "delimiter: ';'" in fh.read():
+                raise RuntimeError("planted: cannot read semicolon-separated files")
+        return bench.pio.read_scsv(file)
+
+    planted = Bench.__new__(Bench)
+    planted.__dict__.update(bench.__dict__)
+    planted.pio = types.SimpleNamespace(save_scsv=bench.pio.save_scsv, read_scsv=picky_read, parse_scsv_schema=getattr(bench.pio, "parse_scsv_schema", None))
+    a4 = dict(delim="semicolon", missing="word", producer="dict", salt=4, np=[False, True],
+              fields=[dict(name="mixed", type="integer", fa="big", fb="-", form="text"), dict(name="ascii", type="float", fa="nan", fb="-", form="native")])
+    fs, _ = evaluate(planted, a4, tables)
+    sig = Minimiser(planted, tables).minimise(a4, fs[0])[0] if fs else None
+    want = {"clause": "valid-roundtrip-raised", "stage": "read", "exc": "RuntimeError", "delimiter": "semicolon"}
+    chk.control("minimiser-blames-the-planted-feature-only", sig == want, json.dumps(sig))
+    bench.evaluations = planted.evaluations
 
 
 def main(tier):
